@@ -101,6 +101,7 @@ package types
 
 //@ func (h ITrxHandler_TrxEVMHandler) ValidateTrx(ctx)
 //@   requires wf_ctx(ctx)
+//@   modifies lastigas
 
 //@ func (h ITrxHandler_TrxAcctHandler) ExecuteTrx(ctx)
 //@   requires wf_ctx(ctx) && amounts_fit(ctx)
